@@ -53,6 +53,115 @@ def array(f, xs, deg, shape2d=False):
     return [hx(v) for v in r]
 
 
+def bits(a):
+    """exact content of an array-like (dtype, shape and bytes in logical order)"""
+    a = np.asarray(a)
+    return (str(a.dtype), a.shape, np.ascontiguousarray(a).tobytes())
+
+
+def array_semantics(sem):
+    """Calling conventions of the array form, for several kinds of input built from sem[unit] (hex floats):
+    the caller's input must be bit-identical after the call, the result must not share memory with it, must be an
+    ndarray of the input's shape (a real scalar for 0-d / scalar input), calling twice must give identical results,
+    integer arrays must give the values of the corresponding float scalars, and the round trip through both
+    functions - using the caller's original array object afterwards - must equal the element-wise scalar round trip.
+    Returns a list of issues {fn, unit, input_kind, issue, detail}."""
+    issues = []
+
+    def issue(fn, unit, kind, what, detail):
+        issues.append({'fn': fn, 'unit': unit, 'input_kind': kind, 'issue': what, 'detail': detail})
+
+    for unit, deg in (('deg', True), ('rad', False)):
+        xs = [float.fromhex(h) for h in sem.get(unit, [])]
+        if not xs:
+            continue
+        n4 = len(xs) - len(xs) % 4
+        base = np.array(xs + xs, dtype=np.float64)
+
+        def kinds():
+            yield 'float64-1d', np.array(xs, dtype=np.float64), None
+            b = base.copy()
+            yield 'float64-strided-view', b[::2], b
+            if n4:
+                yield 'float64-2d', np.array(xs[:n4], dtype=np.float64).reshape(-1, 4), None
+                b2 = np.array(xs[:n4], dtype=np.float64).reshape(4, -1)
+                yield 'float64-2d-transposed-view', b2.T, b2
+            yield 'float64-0d', np.array(xs[0], dtype=np.float64), None
+            yield 'float64-1-element', np.array(xs[:1], dtype=np.float64), None
+            yield 'float64-readonly', _readonly(np.array(xs, dtype=np.float64)), None
+            yield 'float32-1d', np.array(xs, dtype=np.float32), None
+            yield 'int64-1d', np.array([int(max(-1e6, min(1e6, round(x)))) for x in xs], dtype=np.int64), None
+            yield 'list', list(xs), None
+
+        for name, f in (('yaw_to_heading', yaw_to_heading), ('heading_to_yaw', heading_to_yaw)):
+            for kind, a, owner in kinds():
+                before = bits(a); before_owner = bits(owner) if owner is not None else None
+                try:
+                    r1 = f(a, deg=deg)
+                except Exception as e:  # noqa
+                    if kind != 'list':      # the functions are documented for floats and ndarrays only
+                        issue(name, unit, kind, 'exception', type(e).__name__)
+                    if bits(a) != before:
+                        issue(name, unit, kind, 'input-modified', 'the call raised and left the caller\'s input changed')
+                    continue
+                if bits(a) != before or (owner is not None and bits(owner) != before_owner):
+                    aa = np.asarray(a).reshape(-1); bb = np.frombuffer(before[2], dtype=before[0])
+                    j = next((i for i in range(len(bb)) if aa[i].tobytes() != bb[i].tobytes()), 0)
+                    issue(name, unit, kind, 'input-modified', 'element %d of the caller\'s input was %r before the call and is %r after it' % (j, bb[j].item(), aa[j].item()))
+                    # restore for the remaining observations
+                    if kind != 'list' and a.flags.writeable:
+                        a[...] = np.frombuffer(before[2], dtype=before[0]).reshape(before[1])
+                if isinstance(a, np.ndarray) and isinstance(r1, np.ndarray) and np.shares_memory(r1, a):
+                    issue(name, unit, kind, 'result-aliases-input', 'np.shares_memory(result, input) is True')
+                want_shape = np.shape(a)
+                if want_shape == ():
+                    if np.ndim(r1) != 0:
+                        issue(name, unit, kind, 'bad-result-shape', '0-d input gave a result of shape %r' % (np.shape(r1),))
+                elif kind != 'list' and (not isinstance(r1, np.ndarray) or r1.shape != want_shape):
+                    issue(name, unit, kind, 'bad-result-shape', 'input shape %r, result %s of shape %r' % (want_shape, type(r1).__name__, np.shape(r1)))
+                snapshot = bits(r1)
+                try:
+                    r2 = f(a, deg=deg)
+                    if bits(r2) != snapshot:
+                        issue(name, unit, kind, 'not-repeatable', 'calling twice on the same input object gives different results')
+                    elif bits(r1) != snapshot:
+                        issue(name, unit, kind, 'result-aliases-input', 'the first result changed when the function was called again')
+                except Exception as e:  # noqa
+                    issue(name, unit, kind, 'not-repeatable', 'second call raised %s' % type(e).__name__)
+                if kind == 'int64-1d' and isinstance(r1, np.ndarray) and r1.shape == want_shape:
+                    ref = [f(float(v), deg=deg) for v in np.frombuffer(before[2], dtype=np.int64)]
+                    if [float(v).hex() for v in r1] != [float(v).hex() for v in ref]:
+                        issue(name, unit, kind, 'int-array-differs', 'integer array gives other values than the same numbers as floats')
+        # round trips on arrays, reusing the caller's original object after the first call
+        for kind, a, owner in kinds():
+            if not kind.startswith('float64') or kind == 'float64-0d':
+                continue
+            for first, second, nm in ((yaw_to_heading, heading_to_yaw, 'heading_to_yaw(yaw_to_heading(a))'),
+                                      (heading_to_yaw, yaw_to_heading, 'yaw_to_heading(heading_to_yaw(a))')):
+                flat0 = [float(v) for v in np.asarray(a).reshape(-1)]
+                try:
+                    ref = [float(second(first(v, deg=deg), deg=deg)).hex() for v in flat0]
+                    mid = first(a, deg=deg)
+                    back = second(mid, deg=deg)
+                    again = second(first(a, deg=deg), deg=deg)        # the original object, used a second time
+                    for label, res in (('', back), (' when the same array object is used again', again)):
+                        got = [float(v).hex() for v in np.asarray(res).reshape(-1)]
+                        if got != ref:
+                            j = next((i for i in range(min(len(got), len(ref))) if got[i] != ref[i]), 0)
+                            issue('roundtrip', unit, kind, 'array-roundtrip-differs',
+                                  '%s%s: element %d (input %r) gives %s, the scalar round trip gives %s'
+                                  % (nm, label, j, flat0[j], got[j] if j < len(got) else None, ref[j]))
+                            break
+                except Exception as e:  # noqa
+                    issue('roundtrip', unit, kind, 'exception', '%s raised %s' % (nm, type(e).__name__))
+    return issues
+
+
+def _readonly(a):
+    a.flags.writeable = False
+    return a
+
+
 def main():
     inp = json.load(open(sys.argv[1]))
     out = {}
@@ -88,6 +197,7 @@ def main():
                 r.append('EXC:%s' % type(e).__name__)
         dflt[name] = r
     out['default_unit'] = dflt
+    out['array_semantics'] = array_semantics(inp.get('sem', {}))
     json.dump(out, open(sys.argv[2], 'w'))
 
 
